@@ -31,7 +31,7 @@ package simplify
 // compaction keeps exactly the vertices whose mask is 1, in order, so the result is a subsequence
 // with both endpoints.
 //@ func dpWorker(ls, threshold, mask)
-//@   floats abstract
+//@   floats ieee
 //@   ovf assume
 //@   requires len(ls) >= 2 && len(mask) == len(ls)
 //@   requires mask[0] == 1 && mask[len(mask)-1] == 1
@@ -44,6 +44,12 @@ package simplify
 //@   loop 1: invariant forall j :: 0 <= j && j < len(stack) ==> 0 <= stack[j] && stack[j] < len(ls)
 //@   loop 1: invariant forall k :: 0 <= k && k < len(mask) ==> mask[k] == old(mask[k]) || mask[k] == 1
 //@   loop 2: invariant start + 1 <= i && 0 <= start && end < len(ls) && 0 <= maxIndex && maxIndex < len(ls) && (maxIndex == 0 || (start < maxIndex && maxIndex < end))
+// when the scan of a span ends, no interior vertex is farther from the chord than maxDist (so a span
+// is closed only if none exceeds the threshold, and the vertex kept otherwise is a farthest one)
+//@   loop 2: invariant forall k :: start < k && k < i ==> !(planar.DistanceFromSegmentSquared(ls[start], ls[end], ls[k]) > maxDist)
+//@   loop 2: invariant maxIndex != 0 ==> same(maxDist, planar.DistanceFromSegmentSquared(ls[start], ls[end], ls[maxIndex]))
+//@   loop 2: exit forall k :: start < k && k < end ==> !(planar.DistanceFromSegmentSquared(ls[start], ls[end], ls[k]) > maxDist)
+//@   loop 2: exit maxIndex != 0 ==> same(maxDist, planar.DistanceFromSegmentSquared(ls[start], ls[end], ls[maxIndex]))
 
 //@ func (*DouglasPeuckerSimplifier).simplify(s, ls, area, wim) (out, indexMap)
 //@   floats abstract
